@@ -4,6 +4,8 @@ import FluteModel.Lemmas.BencPsi
 import FluteModel.Lemmas.BencNoPanic
 import FluteModel.Lemmas.BencEmpty
 import FluteModel.Lemmas.BencSession
+import FluteModel.Props.C06
+import FluteModel.Lemmas.BencBridge
 /-
   C08 - per-transfer symbol emission, RFC offsets, end flags.
 
@@ -312,21 +314,83 @@ theorem is_expired_iff (x : Session) :
   · simp [h]; omega
   · simp [h]; cases x.carousel <;> simp <;> omega
 
-/-- the glue, for ALL sessions over a non-empty buffer object (`SGood`: any `max_transfer_count`, carousel or not, any
-    transfer / removal history so far): a packet returned by the session's `read` keeps the session good (its encoder is a
-    genuine run of an encoder created with `closabled_object = is_last_transfer`, so every block-encoder theorem above
-    applies to it), and if it carries B while the object is still in the FDT (not removed) then this is the LAST transfer
-    (no carousel, `transfer_count + 1 = max_transfer_count`) and its last packet (nothing left to cut, window drained). -/
+/-- the glue, one call: for ALL sessions over a non-empty buffer object (`SGood`: any `max_transfer_count`, carousel or not),
+    whatever `read` returns the session stays good (its encoder is a genuine run of an encoder created with
+    `closabled_object = is_last_transfer`, so every block-encoder theorem above applies to it), and a packet carrying B while
+    the object is still in the FDT is the last packet of the LAST transfer. -/
 theorem session_close_object_only_last_transfer {x x' : Session} {p : Pkt}
     (hg : Flute.BencSession.SGood c aL aS nL n x) (h : x.read = (.pkt p, x')) :
     Flute.BencSession.SGood c aL aS nL n x' ∧
     (p.closeObject = true → x'.added = true →
       (x'.carousel = false ∧ x'.maxtc = x'.count + 1) ∧
       ∃ e', x'.enc = some e' ∧ e'.sbn = n ∧ e'.readEnd = true ∧ ∀ b, b ∈ e'.blocks → b.isEmpty = true) := by
-  obtain ⟨h1, h2⟩ := Flute.BencSession.runLoop_spec 4 x hg p x' h
+  obtain ⟨h1, h2, _⟩ := Flute.BencSession.runLoop_spec 4 x hg _ x' h
   refine ⟨h1, fun hB ha => ?_⟩
-  obtain ⟨h3, h4⟩ := h2 hB ha
-  exact ⟨(is_last_transfer_iff x').mp h3, h4⟩
+  obtain ⟨h3, e', h4, h5, h6, _, h7⟩ := h2 p rfl hB ha
+  exact ⟨(is_last_transfer_iff x').mp h3, e', h4, h5, h6, h7⟩
+
+/-- **whole histories.**  From a freshly added non-empty buffer object (`sgood_init`: no encoder yet; any
+    `max_transfer_count`, carousel or not, immediate stop allowed or not), after ANY history `ops1` of `Sender::read`
+    (returning packets or `None`, ending transfers, starting new ones), `remove_object` and clock advances, if the next
+    `read` returns a packet with B then
+    (a) if the object is still in the FDT: this is the last packet of the LAST transfer (`¬carousel`,
+        `transfer_count + 1 = max_transfer_count`, nothing left to cut, window drained) - otherwise the object had been
+        removed (forced-stop packet, or last packet of the transfer a removed object was allowed to finish);
+    (b) in every case it is FINAL: whatever the application does afterwards (any history `ops2`), every `read` returns
+        `None` - no further packet of the object, no further transfer.
+    (Stream sources: `stream_eq_buffer` (C20) gives the same packets call by call at encoder level.) -/
+theorem session_history_close_object (ops1 ops2 : List Flute.BencSession.Op) {x0 x2 : Session} {p : Pkt}
+    (hg : Flute.BencSession.SGood c aL aS nL n x0)
+    (h : (Flute.BencSession.srun ops1 x0).2.read = (.pkt p, x2)) (hB : p.closeObject = true) :
+    (x2.added = true → (x2.carousel = false ∧ x2.maxtc = x2.count + 1) ∧
+      ∃ e', x2.enc = some e' ∧ e'.sbn = n ∧ e'.readEnd = true ∧ ∀ b, b ∈ e'.blocks → b.isEmpty = true) ∧
+    ∀ o, o ∈ (Flute.BencSession.srun ops2 x2).1 → o = .none := by
+  have hg1 := Flute.BencSession.run_good ops1 x0 hg
+  obtain ⟨_, h2, h3⟩ := Flute.BencSession.runLoop_spec 4 _ hg1 _ x2 h
+  refine ⟨fun ha => ?_, Flute.BencSession.nothing_after_finished ops2 x2 (h3 p rfl hB)⟩
+  obtain ⟨h4, e', h5, h6, h7, _, h8⟩ := h2 p rfl hB ha
+  exact ⟨(is_last_transfer_iff x2).mp h4, e', h5, h6, h7, h8⟩
+
+/-- … and every history keeps the invariant, starting from the freshly added object -/
+theorem session_history_good (ops : List Flute.BencSession.Op) (x0 : Session) (hsrc : x0.src = .buffer c)
+    (hnl : x0.P.legacy = false) (he : 0 < x0.P.e) (hb : 0 < x0.P.b) (hlen : x0.P.len = c.length) (hl : 0 < c.length)
+    (hw : 1 ≤ x0.P.window) (hq : Partition.blockPartitioning x0.P.b x0.P.len x0.P.e = .ok (aL, aS, nL, n))
+    (hA : Accepts x0.P c aL aS nL n) (hle : SymLe x0.P.codec) (henc : x0.enc = none) :
+    Flute.BencSession.SGood c aL aS nL n (Flute.BencSession.srun ops x0).2 :=
+  Flute.BencSession.run_good ops x0 (Flute.BencSession.sgood_init x0 hsrc hnl he hb hlen hl hw hq hA hle henc)
+
+/-- content encoding: the object `c` all theorems above slice is the TRANSFER-ENCODED object: `ObjectDesc::create_*`
+    (`objectSource`, the function the driver runs) hands the encoder `compress cenc content` for a buffer / RAM-cached
+    file when `cenc ≠ null` (the whole content is encoded before any slicing; `compress` = flate2's output, an explicit
+    parameter about which nothing is assumed), the content itself when `cenc = null`; a stream is handed over as it is and
+    refused with a content encoding.  (Definition-level: it states how the model is parameterised; that the real
+    sender's payloads slice flute's `compress_buffer` output, and that they inflate to the content, is checked on every
+    cenc case of the correspondence.) -/
+theorem cenc_applied_before_slicing (compress : Nat → Bytes → Bytes) (cenc : Nat) (content : Bytes) (st : BlockEnc.Stream) :
+    objectSource compress cenc (.buffer content) = some (.buffer (if cenc = 0 then content else compress cenc content)) ∧
+    (cenc ≠ 0 → objectSource compress cenc (.stream st) = none) ∧
+    objectSource compress 0 (.stream st) = some (.stream st) := by
+  refine ⟨rfl, fun h => ?_, rfl⟩
+  simp [objectSource, h]
+
+/-- `Accepts` is not a free hypothesis for the Reed-Solomon schemes (FEC ID 5, 129): it follows from what the repaired
+    `add_object` checks (parity ≥ 1, `a_large + parity ≤ 256`); for Raptor from "no block of 2 or 3 symbols" -/
+theorem accepts_discharged (hS : Setup P c aL aS nL n) :
+    (∀ rep, P.codec = reedSolomon rep → 1 ≤ P.p → aL + P.p ≤ 256 → Accepts P c aL aS nL n) ∧
+    (∀ rep, P.codec = raptorLegacy rep → (∀ k, k < n → A aL aS nL k ≠ 2 ∧ A aL aS nL k ≠ 3) → Accepts P c aL aS nL n) ∧
+    ((∀ e k p, P.codec.accepts e k p = true) → Accepts P c aL aS nL n) :=
+  ⟨fun rep => rs_accepts rep hS, fun rep => raptor_accepts rep hS, accepts_of_total hS⟩
+
+/-- bridge to C07: the blocks the encoder cuts are, block for block, `Partition.senderBlocks` (the object of C07's sender
+    theorems): same number of symbols `A k`, same byte range `[off k, off (k+1))` -/
+theorem sender_slicing_is_senderBlocks (hS : Setup P c aL aS nL n) (hA : Accepts P c aL aS nL n) :
+    Partition.senderBlocks (aL, aS, nL, n) P.len P.e n 0 0 =
+      (List.range n).map (fun k => (A aL aS nL k, off P aL aS nL k, off P aL aS nL (k + 1))) ∧
+    ∀ s : Enc, Inv P c aL aS nL n s → s.readEnd = false →
+      ∃ b0, readBlockBuffer P s c = some { s with blocks := s.blocks ++ [b0], sbn := s.sbn + 1, readEnd := decide (s.sbn + 1 = n), off := off P aL aS nL (s.sbn + 1) } ∧
+        b0.sbn = s.sbn ∧ b0.nbSource = A aL aS nL s.sbn ∧
+        Block.new P s.sbn ((c.drop (off P aL aS nL s.sbn)).take (off P aL aS nL (s.sbn + 1) - off P aL aS nL s.sbn)) = some b0 :=
+  Flute.BencBridge.sender_slicing_eq_senderBlocks hS hA
 
 /-- whole-session run on a concrete object (3 symbols in 2 blocks, RS parity 1, window 2, `max_transfer_count = 3`, no
     carousel): three identical transfers, B only on the last packet of the third -/
@@ -336,12 +400,52 @@ theorem session_b_only_in_last_transfer :
         src := .buffer [1, 2, 3, 4, 5], maxtc := 3, carousel := false, allowStop := false }) =
       [false, false, false, false, false, false, false, false, false, false, false, false, false, false, true] := by decide
 
-/-- A flag (close session): never set by the packet builder used by `read` (`new_alc_pkt`), always set by the
-    explicit close-session packet (`new_alc_pkt_close_session`) -/
-theorem close_session_only_explicit : (∀ p : Pkt, (alcFlags p).1 = false) ∧ closeSessionFlags.1 = true :=
-  ⟨fun _ => rfl, rfl⟩
+/-- the `pkt::Pkt` handed to `alc::new_alc_pkt` by `SenderSession::run` for a block-encoder packet of an object:
+    the encoder's fields plus the file's (TOI, transfer length, cenc) -/
+def toAlc (p : Pkt) (toi tlen cenc : Nat) (inbandCenc : Bool) : Flute.Alc.Pkt :=
+  { payload := p.payload, transferLength := tlen, esi := p.esi, sbn := p.sbn, toi := toi, fdtId := none, cenc := cenc,
+    inbandCenc := inbandCenc, closeObject := p.closeObject, sourceBlockLength := p.sbl, senderCurrentTime := false }
+
+/-- A / B flags ON THE WIRE, about agent wire's model of the real builders (`Alc.newAlcPkt`, `Alc.newAlcPktCloseSession`,
+    `Alc.parseAlcPkt`; C06 `alc_pkt_roundtrip`, `close_session_roundtrip`):
+    (1) for EVERY block-encoder packet `p` of an object (TOI ≠ 0) the datagram `new_alc_pkt` builds exists and parses back
+    with close-session A = 0 and close-object B = `p.closeObject` (so every B statement above is a statement about the B
+    bit of the datagram), payload = `p.payload`; the driver's projection `alcFlags p` is exactly these two parsed bits;
+    (2) the datagram `new_alc_pkt_close_session` builds parses back with A = 1, B = 0 and `closeSessionFlags` is exactly
+    these two bits.  `SenderSession::run` builds every datagram `Sender::read` returns with `new_alc_pkt` (sendersession.rs:88),
+    `Sender::read_close_session` with `new_alc_pkt_close_session` (sender.rs:386).
+    (Hypotheses `FtiOk` / `PidOk` = C06's per-scheme EXT_FTI / payload-ID round trips for this OTI and (SBN, ESI).) -/
+theorem close_session_only_explicit (p : Pkt) (oti : Flute.Fti.Oti) (cci tsi toi tlen cenc nowUs : Nat) (inbandCenc : Bool)
+    (wfti : List Nat) (nfti : Nat) (o' : Flute.Fti.Oti) (wpid : List Nat) (pid : Flute.Fti.PayloadId)
+    (hk : Flute.Fti.knownFec oti.fecId = true) (hcci : cci < 2^128) (htsi : tsi < 2^48) (htoi : toi < 2^112) (htoi0 : toi ≠ 0)
+    (hcenc : cenc ≤ 3)
+    (hfti : oti.inbandFti = true → Flute.Alc.FtiOk oti tlen wfti nfti o') (hn : nfti ≤ 4)
+    (hpid : Flute.Alc.PidOk oti p.sbn p.esi p.sbl wpid pid) :
+    (∃ d q, Flute.Alc.newAlcPkt oti cci tsi (toAlc p toi tlen cenc inbandCenc) false nowUs = .ok d ∧
+        Flute.Alc.parseAlcPkt d = .ok q ∧ q.lct.closeSession = false ∧ q.lct.closeObject = p.closeObject ∧
+        alcFlags p = (q.lct.closeSession, q.lct.closeObject) ∧ q.lct.toi = toi ∧ d.drop q.payloadOffset = p.payload) ∧
+    (∃ d q, Flute.Alc.newAlcPktCloseSession cci tsi = .ok d ∧ Flute.Alc.parseAlcPkt d = .ok q ∧
+        q.lct.closeSession = true ∧ q.lct.closeObject = false ∧ closeSessionFlags = (q.lct.closeSession, q.lct.closeObject)) := by
+  constructor
+  · obtain ⟨d, q, h1, h2, _, _, h5, _, h7, h8, _, _, _, _, _, _, h15, _⟩ :=
+      Flute.Props.C06.alc_pkt_roundtrip oti cci tsi (toAlc p toi tlen cenc inbandCenc) false nowUs 0 wfti nfti o' wpid pid
+        hk hcci htsi htoi (fun h => absurd h htoi0) hcenc (fun h => by cases h)
+        (fun h => by
+          rcases h with h | h
+          · exact absurd h htoi0
+          · exact hfti h) hn hpid
+    refine ⟨d, q, h1, h2, h8, h7, ?_, h5, h15⟩
+    show (false, p.closeObject) = _
+    rw [h8]; rw [h7]; rfl
+  · obtain ⟨d, q, _, h1, _, _, _, _, _, _, _, _, h2, h3, h4, _⟩ := Flute.Props.C06.close_session_roundtrip cci tsi hcci htsi
+    refine ⟨d, q, h1, h2, h3, h4, ?_⟩
+    show (true, false) = _
+    rw [h3, h4]
 
 /-! ### the empty object, and non-vacuity -/
+
+def d3P' : Params :=
+  { codec := reedSolomon (fun _ _ _ _ => []), e := 4, b := 3, p := 2, window := 2, len := 20 }
 
 def tinyP : Params := { codec := noCode, e := 2, b := 2, p := 0, window := 2, len := 5 }
 def tinyObj : Bytes := [1, 2, 3, 4, 5]
@@ -356,6 +460,19 @@ example : ∃ tr s, Run tinyP tinyObj 2 1 1 2 true tr s ∧ (∀ x, x ∈ tr →
   · refine ⟨rfl, by decide, by decide, rfl, by decide, by decide, rfl, ?_, ⟨s0, h0, reads_runPairs tinyP 10 s0⟩⟩
     exact accepts_of_total ⟨rfl, by decide, rfl, by decide,
       good_of_partition 2 5 2 2 1 1 2 (by decide) (by decide) (by decide) rfl⟩ (fun _ _ _ => rfl)
+  · cases h0; rfl
+  · cases h0; rfl
+
+/-- non-vacuity with Reed-Solomon, several blocks, parity 2 (`rs_accepts` discharges `Accepts`): 20 bytes, E = 4, B = 3,
+    window 2 - the D3 configuration - a complete unforced run of 9 packets -/
+example : ∃ tr s, Run (d3P' ) (List.range 20) 3 2 1 2 true tr s ∧ (∀ x, x ∈ tr → x.1 = false) ∧
+    (BlockEnc.read d3P' s false).1 = .none ∧ tr.length = 9 := by
+  obtain ⟨s0, h0⟩ : ∃ s0, Enc.new d3P' (.buffer (List.range 20)) true = .ok s0 := ⟨_, rfl⟩
+  have hS : Setup d3P' (List.range 20) 3 2 1 2 := ⟨rfl, by decide, rfl, by decide,
+      good_of_partition 3 20 4 3 2 1 2 (by decide) (by decide) (by decide) rfl⟩
+  refine ⟨(runPairs d3P' 16 s0).1, (runPairs d3P' 16 s0).2, ?_, runPairs_unforced d3P' 16 s0, ?_, ?_⟩
+  · exact ⟨rfl, by decide, by decide, rfl, by decide, by decide, rfl,
+      rs_accepts _ hS rfl (by decide) (by decide), ⟨s0, h0, reads_runPairs d3P' 16 s0⟩⟩
   · cases h0; rfl
   · cases h0; rfl
 
